@@ -16,7 +16,7 @@ from .lifecycle_sim import World, result
 from krrood.entity_query_language.entity import let, entity
 from krrood.entity_query_language.quantify_entity import an
 
-TYPES = ["T0", "T1", "T2", "T3", "T4", "U0"]
+TYPES = ["T0", "T1", "T2", "T3", "T4", "U0", "F0"]
 
 
 def generate(rng, cfg: Dict) -> Dict:
@@ -35,7 +35,7 @@ def generate(rng, cfg: Dict) -> Dict:
     for _ in range(n_ops):
         r = rng.random()
         if (r < 0.30 or not live) and len(live) < 12:
-            cls = c.weighted([("T0", 3), ("T1", 3), ("T2", 2), ("T3", 2), ("T4", 4 if diamond_bias else 1.5), ("U0", 1)])
+            cls = c.weighted([("T0", 3), ("T1", 3), ("T2", 2), ("T3", 2), ("T4", 4 if diamond_bias else 1.5), ("U0", 1), ("F0", 1.2)])
             ops.append(["create", next_h, cls, next_h])
             live.append(next_h)
             next_h += 1
